@@ -17,6 +17,8 @@ import traceback
 
 import z3
 
+from .core import WALL_NET_MS, qlog
+
 ROOT = os.path.dirname(os.path.dirname(os.path.abspath(__file__)))
 REPLAY_DIR = os.path.join(ROOT, "replay", "out")
 # PYVC_EVIDENCE_DIR: where runs against a scratch copy of the repository (seeded changes, refactorings) write their
@@ -175,6 +177,9 @@ def model_to_dict(m, limit=60):
     return out
 
 
+SESSION_RLIMIT_PER_MS = 1500  # z3 resource units per nominal millisecond of a Session query (about what an idle core does)
+
+
 def run_cvc5(smt2_text, timeout_s, strings=False):
     """Run /usr/bin/cvc5 (or the wheel's CLI) on an SMT-LIB2 text. Returns 'unsat' | 'sat' | 'unknown'."""
     exe = "/usr/bin/cvc5"
@@ -278,7 +283,7 @@ class Session:
         return ob
 
     # -- solver-backed obligations ------------------------------------------------------------
-    def _solve(self, hyps, goal_negation, strings=False, fallback=True, timeout_ms=None):
+    def _solve(self, hyps, goal_negation, strings=False, fallback=True, timeout_ms=None, cvc5=True):
         """Return (verdict, backend, seconds, model, smt2). verdict in unsat/sat/unknown.
 
         Proof search: z3 with E-matching on the stated triggers (model-based quantifier instantiation off, so that
@@ -288,32 +293,47 @@ class Session:
         unknown and the caller's replay search decides."""
         hyps = list(hyps)
         quantified = [h for h in hyps if _has_quantifier(h)]
-        s = z3.Solver()
-        s.set("timeout", timeout_ms or self.query_timeout_ms)
-        if quantified:
-            s.set("smt.mbqi", False)
-            s.set("auto_config", False)
-        for h in hyps:
-            s.add(h)
-        s.add(goal_negation)
-        t = time.time()
-        try:
-            r = s.check()
-        except z3.Z3Exception as e:  # pragma: no cover
-            r = z3.unknown
-            self.notes.append(f"z3 exception: {e}")
-        dt = time.time() - t
+        # Budgets (pyvc.core "budgets"): the nominal budget (ms) is granted in z3's resource units, the wall-clock limit is a
+        # net for the procedures that do not advance the counter. A standard obligation query is staged: a third of the budget
+        # in z3, then cvc5 (which decides what it can decide within a second), then the full budget in z3 - so that a query one
+        # solver cannot do does not cost its whole budget before the other is asked.
+        nominal_ms = timeout_ms or self.query_timeout_ms
+        staged = fallback and timeout_ms is None
+
+        def z3_stage(ms):
+            s = z3.Solver()
+            s.set("rlimit", int(ms * SESSION_RLIMIT_PER_MS))
+            s.set("timeout", max(int(ms * 2), WALL_NET_MS))
+            if quantified:
+                s.set("smt.mbqi", False)
+                s.set("auto_config", False)
+            for h in hyps:
+                s.add(h)
+            s.add(goal_negation)
+            t = time.time()
+            try:
+                r = s.check()
+            except z3.Z3Exception as e:  # pragma: no cover
+                r = z3.unknown
+                self.notes.append(f"z3 exception: {e}")
+            dt = time.time() - t
+            qlog("session.z3", dt, r, s, granted=int(ms * SESSION_RLIMIT_PER_MS))
+            return s, r, dt
+
+        s, r, dt = z3_stage(nominal_ms / 3 if staged else nominal_ms)
         verdict = "unsat" if r == z3.unsat else ("sat" if r == z3.sat else "unknown")
         backend = "z3"
         model = s.model() if r == z3.sat else None
         if verdict == "sat" and quantified:
             verdict = "unknown"  # cannot happen with mbqi off, but be safe
         smt2 = None
-        if fallback and (verdict == "unknown" or (self.cross_check and verdict == "unsat")):
+        if fallback and cvc5 and (verdict == "unknown" or (self.cross_check and verdict == "unsat")):
             smt2 = "(set-logic ALL)\n" + s.to_smt2()
             t2 = time.time()
-            v2, _ = run_cvc5(smt2, min(self.query_timeout_ms / 1000.0, 20.0), strings=strings)
+            # cvc5 decides what it can decide within a second; its wall-clock limit is far above that
+            v2, _ = run_cvc5(smt2, max(self.query_timeout_ms / 1000.0, 60.0), strings=strings)
             dt2 = time.time() - t2
+            qlog("session.cvc5", dt2, v2)
             self.by_backend.setdefault("cvc5", {"queries": 0, "seconds": 0.0})
             self.by_backend["cvc5"]["queries"] += 1
             self.by_backend["cvc5"]["seconds"] += dt2
@@ -325,10 +345,18 @@ class Session:
                 verdict, backend = "unknown", "z3-vs-cvc5-disagree"
             elif v2 == "unsat":
                 backend = "z3+cvc5"
+        if staged and verdict == "unknown":
+            s, r, dt3 = z3_stage(nominal_ms)
+            dt += dt3
+            if r == z3.unsat:
+                verdict, backend = "unsat", "z3"
+            elif r == z3.sat and not quantified:
+                verdict, backend, model = "sat", "z3", s.model()
         if fallback and verdict == "unknown" and quantified:
             # candidate counter-model from the ground part
             g = z3.Solver()
-            g.set("timeout", min(self.query_timeout_ms, 5000))
+            g.set("rlimit", int(min(self.query_timeout_ms, 5000) * SESSION_RLIMIT_PER_MS))
+            g.set("timeout", WALL_NET_MS)
             for h in hyps:
                 if not _has_quantifier(h):
                     g.add(h)
@@ -390,7 +418,8 @@ class Session:
         else:
             if verdict == "unknown" and not sliced:
                 # one retry with a larger budget before the obligation is reported (verdicts must not flip under load)
-                v2, b2, dt2, m2, _ = self._solve(list(hyps), z3.Not(goal), strings=strings, timeout_ms=self.query_timeout_ms * 3)
+                v2, b2, dt2, m2, _ = self._solve(list(hyps), z3.Not(goal), strings=strings, timeout_ms=self.query_timeout_ms * 3,
+                                                 cvc5=False)
                 ob.seconds += dt2
                 if v2 == "unsat":
                     ob.status, ob.backend = "discharged", b2
